@@ -98,6 +98,21 @@ CHECKS = {
         "pickle contains uninitialised struct padding.",
         "engines/fakepool.py",
     ),
+    "C06": (
+        "exploration",
+        "event-log checkers + differential vs a single-process reference on a simulated MPI world with a seeded deterministic scheduler",
+        "The library's real MPI branches (selected by putting a simulated mpi4py on sys.path before importing it) run on 2, 3, "
+        "4, 5 and 8 rank-threads; every communication call is a scheduling point where a seeded scheduler picks the next rank "
+        "and, for wildcard receives, which sender's message is matched (per-sender FIFO, free across senders), with eager or "
+        "rendezvous completion of standard sends and adversarial policies (sentinel-first, newest-sender, starve a rank). Per "
+        "run the checkers decide: logical deadlock, ranks raising, executed == submitted tasks (multisets), records read == "
+        "delivered to the writer == stored, messages left unreceived, broadcast results equal on all ranks, root result == "
+        "reference from a process that never saw mpi4py; evidence counts worlds, messages, wildcard matches with a real "
+        "choice and distinct decision sequences.",
+        "A simulated runtime (protocol/ordering errors reachable; transport limits, multi-node placement not); code between two "
+        "MPI calls is atomic w.r.t. other ranks; a refusal raised on all ranks before any communication is counted separately.",
+        "engines/fakempi/mpi4py/MPI.py",
+    ),
     "C07": (
         "exploration",
         "differential over histories: final measurement after a history vs the same measurement on fresh caches (bitwise)",
@@ -244,6 +259,8 @@ def main():
                  kind_free_text="case runner: sharded execution, verdicts, known-finding classifier, evidence/replay writer"),
             dict(name="crashpoint", path="engines/crashpoint.py", serves_properties=["C08"],
                  kind_free_text="strace-based crash-point injector: trace, then SIGKILL on entry to the k-th relevant file-system call"),
+            dict(name="fakempi", path="engines/fakempi/mpi4py/MPI.py", serves_properties=["C06"],
+                 kind_free_text="thread-per-rank mpi4py double with a deterministic seeded scheduler, logical deadlock detection and an event log"),
             dict(name="fakepool", path="engines/fakepool.py", serves_properties=["C05"],
                  kind_free_text="in-process double of multiprocessing.Pool yielding imap_unordered results in a chosen permutation"),
             dict(name="sources", path="vlib/sources.py", serves_properties=["C02", "C18", "C09"],
